@@ -179,6 +179,6 @@ def readText (b : Bytes) : Option Json :=
 
 /-- `SlurmFile::from_str` -/
 def readFile (b : Bytes) : Option SlurmFile :=
-  (readText b).bind fun j => SlurmFile.fromJson (retype none j)
+  (readText b).bind fun j => SlurmFile.fromJson (retype .top j)
 
 end Rpki.JsonRead
